@@ -44,4 +44,22 @@ def guardCount (G : CG) : List Nat → Nat
 def firstBadEdge (G : CG) (rank : List Nat) : Option (Nat × Nat) :=
   G.edges.find? (fun e => !edgeOK G rank e)
 
+/-- one class of paths through a function that charges / releases a depth counter (generated from the source text) -/
+structure PathCount where
+  counter : String
+  fn : String
+  label : String
+  errorExit : Bool
+  charges : Nat
+  releases : Nat
+  deriving Repr
+
+/-- a path never gives back more than it took; a path that ends normally (return / goto / loop iteration) gives back
+    exactly what it took.  (An exit on an error path may keep its charge: the counter is re-initialised by the next
+    top-level entry, and a charge that is kept can only make the guard fire earlier.) -/
+def pathOK (p : PathCount) : Bool :=
+  decide (p.releases ≤ p.charges) && (p.errorExit || p.releases == p.charges)
+
+def balanced (ps : List PathCount) : Bool := ps.all pathOK
+
 end JanetModel.Depth
